@@ -77,8 +77,11 @@ bool request::read_key_value(
 			}
 		}
 		else {
+			// an unquoted value runs up to the next separator: RFC 6265 cookie-octets
+			// include '/', '=', ':', '@', '?', brackets and braces (base64 text, URLs)
 			tmp=p;
-			p=http::protocol::tocken(p,e);
+			while(p<e && *p!=';' && *p!=',' && *p!=' ' && *p!='\t')
+				++p;
 			value.assign(tmp,p);
 			if(p==tmp && p<e && *p!=';'&& *p!=',') {
 				skip_after_period(p,e);
